@@ -12,7 +12,10 @@ EXTRA = ["1.0", "<-", "|>", "@", "/", "||", "&&", "==", "<", "<>", "*", "!", "as
          "import", "opaque", "panic", "pub", "todo", "type", "use", "xY", "Xy_", "é", "\r", '"', "&", "$", "0x", "1.",
          "// c\n", "/// d\n", "//// m\n", "\n",
          # number spellings: separators, exponents, other bases, malformed tails (appended: earlier indices are used by slices)
-         "1_000", "0.1_0", "1.5e3", "2.0E-3", "0x1F", "0b1_0", "0o17", "1_", "1.0e", "1e3", "00.5"]
+         "1_000", "0.1_0", "1.5e3", "2.0E-3", "0x1F", "0b1_0", "0o17", "1_", "1.0e", "1e3", "00.5",
+         # string spellings: escapes, a backslash (or two, or three) right in front of the closing quote, an escaped quote, an escape at the
+         # end of input, a quote inside a comment
+         '"\\\\"', '"a\\\\"', '"\\\\\\\\"', '"\\\""', '"\\\\\\""', '"\\n\\t"', '"C:\\\\tmp\\\\"', '"\\', '"a\\\\', '"\\u{1F4A3}"', '// "\n']
 # characters editors and tools put into files without the user asking (byte order mark, other line/paragraph
 # separators, NUL, no-break and zero-width spaces, form feed, vertical tab) and characters outside the BMP
 EXOTIC = ["\ufeff", "\u2028", "\u2029", "\x00", "\u00a0", "\u200b", "\x0c", "\x0b", "\t", "\u0085", "💣", "e\u0301", "\ufffd", "\x7f"]
@@ -387,7 +390,17 @@ def run_c04(res, tier, seed):
         progs.append((m, gen_gleam.render(m)))
     texts = [t for _, t in progs]
     sreqs = ["shape\t" + hexs(t) for t in texts]
-    so, _ = common.run_lines(common.HARNESS_BIN, sreqs)
+    so, rc = common.run_lines(common.HARNESS_BIN, sreqs)
+    dead = 0
+    while len(so) != len(sreqs) and dead < 5:
+        # the process ended on a well-formed program: that program is the failing input; go on behind it
+        dead += 1
+        k = len(so)
+        one, rc1 = common.run_lines(common.HARNESS_BIN, [sreqs[k]])
+        res.add_violation("C04/abort", f"the parser process ended (rc={rc}) on a well-formed program" + ("" if not one else " (not when it is parsed alone)"),
+                          {"text_hex": hexs(texts[k]), "text": texts[k][:600], "expected": ("errs=0 " + gen_gleam.shape(progs[k][0]))[:1500]})
+        rest, rc = common.run_lines(common.HARNESS_BIN, sreqs[k + 1:])
+        so = so + ["errs=? (process ended)"] + rest
     if len(so) != len(sreqs):
         raise Broken("implementation harness died", "during shape oracle")
     res.cov["evaluations"] += len(sreqs)
